@@ -3,9 +3,13 @@
 `run_program` starts a helper thread that runs the child and closes the write end of
 a pipe while the main thread parses the read end.  For schedule exploration the
 harness replaces, in the runner module's namespace only, `os` (pipe / fdopen / close
-/ environ over an in-memory bounded ModelPipe), `subprocess` (a scripted child that
-performs a list of writes and returns a status) and `threading` (a Thread whose
-start / join / is_alive are scheduling points).  Both threads run the real code under
+/ environ over an in-memory bounded ModelPipe), `subprocess` (a scripted child - run
+inline by `run`, as a scheduled thread of its own by `Popen` - that performs a list of
+writes, may close its standard error early and linger, and returns a status) and
+`threading` (a Thread whose start / join / is_alive are scheduling points).  The pipe
+reaches end of file when every holder of the write end (the runner's descriptor, the
+child's copy) has closed it.  Model time advances only when no thread can run: to the
+earliest deadline among sleepers and timed joins.  Both threads run the real code under
 sys.settrace; every *line event in a frame of runner.py* and every model-pipe
 operation hands the baton back to the scheduler.  Waiting is visible: readline on an
 empty open pipe, a write to a full pipe and a join on a live thread block.
@@ -35,9 +39,22 @@ class Sched:
         self.points = []          # (running thread, enabled in canonical order)
         self.threads = collections.OrderedDict()
         self.error = None
+        self.now = 0.0            # model time, seconds
 
     def register(self, name):
-        self.threads[name] = {'sem': real_threading.Semaphore(0), 'blocked': None, 'done': False}
+        self.threads[name] = {'sem': real_threading.Semaphore(0), 'blocked': None, 'done': False, 'deadline': None}
+
+    def runnable(self):
+        """Enabled threads; when there are none, time passes until the earliest deadline of a waiting thread."""
+        en = self.enabled()
+        while not en:
+            ds = [t['deadline'] for t in self.threads.values()
+                  if not t['done'] and t['blocked'] is not None and t['deadline'] is not None and t['deadline'] > self.now]
+            if not ds:
+                break
+            self.now = min(ds)
+            en = self.enabled()
+        return en
 
     def enabled(self, excluding=None):
         out = []
@@ -49,10 +66,11 @@ class Sched:
             out.append(n)
         return out
 
-    def point(self, me, blocked=None):
+    def point(self, me, blocked=None, deadline=None):
         """Called by the running thread `me`; may hand the baton to another thread."""
         self.threads[me]['blocked'] = blocked
-        en = self.enabled()
+        self.threads[me]['deadline'] = deadline
+        en = self.runnable()
         if not en:
             self.error = Deadlock('no enabled thread: ' + repr({n: (t['done'], t['blocked'] is not None)
                                                                 for n, t in self.threads.items()}))
@@ -71,10 +89,11 @@ class Sched:
             if self.error is not None and not isinstance(self.error, Deadlock):
                 pass
         self.threads[me]['blocked'] = None
+        self.threads[me]['deadline'] = None
 
     def finish(self, me):
         self.threads[me]['done'] = True
-        en = self.enabled()
+        en = self.runnable()
         if en:
             self.threads[sorted(en)[0]]['sem'].release()
 
@@ -92,9 +111,14 @@ class ModelPipe:
     def __init__(self, cap):
         self.buf = collections.deque()
         self.cap = cap
-        self.wclosed = False
+        self.runner_closed = False      # wayland-debug's own descriptor of the write end
+        self.child_open = False         # the child's copy (its standard error)
         self.pending = ''
         self.reads = 0
+
+    @property
+    def wclosed(self):
+        return self.runner_closed and not self.child_open
 
 
 def make_env(S, runner_file, script, status, cap, observe):
@@ -142,7 +166,7 @@ def make_env(S, runner_file, script, status, cap, observe):
 
     def fake_close(fd):
         S.point(me())
-        pipe.wclosed = True
+        pipe.runner_closed = True
         observe('close_write_end', S.threads.get('subprocess', {}).get('returncode_published'))
 
     fos = types.SimpleNamespace(environ={'PATH': '/bin', 'LD_LIBRARY_PATH': ''}, pipe=lambda: (100, 101),
@@ -151,16 +175,91 @@ def make_env(S, runner_file, script, status, cap, observe):
     class CP:
         pass
 
-    def frun(args, stderr=None, env=None, bufsize=None, **kw):
+    def child_body(who):
+        """The scripted program: writes; ('close',) closes its standard error; ('sleep', s) lingers; its copy of the
+        write end goes away when it exits."""
+        for tok in script:
+            if isinstance(tok, tuple) and tok[0] == 'close':
+                S.point(who)
+                pipe.child_open = False
+            elif isinstance(tok, tuple) and tok[0] == 'sleep':
+                wake = S.now + tok[1]
+                S.point(who, blocked=lambda: S.now >= wake, deadline=wake)
+            elif pipe.child_open:
+                S.point(who, blocked=lambda: len(pipe.buf) < pipe.cap)
+                pipe.buf.append(tok)
+        pipe.child_open = False
+
+    def spawned(args, stderr, env, kw):
         observe('child_started', {'args': list(args), 'WAYLAND_DEBUG': (env or {}).get('WAYLAND_DEBUG'), 'stderr': stderr,
                                   'stdout_redirected': 'stdout' in kw})
-        for chunk in script:
-            S.point(me(), blocked=lambda: len(pipe.buf) < pipe.cap)
-            pipe.buf.append(chunk)
+        pipe.child_open = True
+
+    def frun(args, stderr=None, env=None, bufsize=None, **kw):
+        spawned(args, stderr, env, kw)
+        child_body(me())
         r = CP()
         r.returncode = status
+        r.args = args
         return r
-    fsub = types.SimpleNamespace(run=frun, PIPE=-1, DEVNULL=-3)
+
+    class FPopen:
+        """subprocess.Popen: the child runs as a scheduled thread of its own."""
+
+        def __init__(self, args, stderr=None, env=None, bufsize=None, **kw):
+            spawned(args, stderr, env, kw)
+            self.args = args
+            self.pid = 4243
+            self.returncode = None
+            self.stdin = self.stdout = self.stderr = None
+            S.register('child')
+
+            def body():
+                S.threads['child']['sem'].acquire()
+                try:
+                    child_body('child')
+                except (Deadlock, BadChoice):
+                    pass
+                finally:
+                    S.finish('child')
+            real_threading.Thread(target=body, name='child', daemon=True).start()
+            S.point(me())
+
+        def _done(self):
+            return S.threads['child']['done']
+
+        def poll(self):
+            S.point(me())
+            if self._done():
+                self.returncode = status
+            return self.returncode
+
+        def wait(self, timeout=None):
+            t_end = None if timeout is None else S.now + timeout
+            S.point(me(), blocked=lambda: self._done() or (t_end is not None and S.now >= t_end), deadline=t_end)
+            if not self._done():
+                import subprocess as real_subprocess
+                raise real_subprocess.TimeoutExpired(self.args, timeout)
+            self.returncode = status
+            return status
+
+        def communicate(self, input=None, timeout=None):
+            self.wait(timeout)
+            return None, None
+
+        def __enter__(self):
+            return self
+
+        def __exit__(self, *a):
+            self.wait()
+            return False
+
+        def kill(self):
+            pass
+        terminate = kill
+    import subprocess as _real_subprocess
+    fsub = types.SimpleNamespace(run=frun, Popen=FPopen, PIPE=-1, DEVNULL=-3, STDOUT=-2, TimeoutExpired=_real_subprocess.TimeoutExpired,
+                                 CalledProcessError=_real_subprocess.CalledProcessError, CompletedProcess=CP)
 
     class FThread:
         def __init__(self, name=None, target=None, daemon=None, args=(), kwargs=None):
@@ -191,9 +290,9 @@ def make_env(S, runner_file, script, status, cap, observe):
             S.point('main')
 
         def join(self, timeout=None):
-            # a join with a timeout on a thread that can never finish is the only way the timeout fires
-            S.point('main', blocked=lambda: S.threads[self.name]['done'] or
-                    (timeout is not None and S.enabled(excluding='main') == []))
+            # the timeout fires when model time reaches it: time passes only while no thread can run
+            t_end = None if timeout is None else S.now + timeout
+            S.point(me(), blocked=lambda: S.threads[self.name]['done'] or (t_end is not None and S.now >= t_end), deadline=t_end)
 
         def is_alive(self):
             return not S.threads[self.name]['done']
